@@ -114,6 +114,14 @@ pub fn curated() -> Vec<(&'static str, Spec, bool)> {
     add("sc_dot", true, vec![r(".b"), r("a.?c")]);
     add("sc_dot_bytes", false, vec![r("(?s-u:.)b"), r("a(?-u:.)?c")]);
 
+    // ---- patterns on which backtracking engines go exponential / quadratic
+    add("adv_alt_star", true, vec![r("(a|a)*b"), r("a")]);
+    add("adv_star_star", true, vec![r("(a*)*b"), r("a+").prio(1)]);
+    add("adv_plus_plus", true, vec![r("(a+)+b"), r("a")]);
+    add("adv_overlap", true, vec![r("(a|aa)+b"), r("a+c")]);
+    add("adv_nested_opt", true, vec![r("(a?){8}a{8}"), r("a")]);
+    add("adv_two_loops", true, vec![r("a*a*a*a*b"), r("a").prio(1)]);
+    add("adv_dot_star", true, vec![r("(x.*y)+z").greedy(), r("x").prio(9)]);
     // ---- byte mode
     let b = |p: &[u8]| Pat::bregex(p);
     let bt = |p: &[u8]| Pat::btoken(p);
